@@ -143,6 +143,38 @@ def conformance(rep, wd, trace_path, label, chunk=2500):
         rep.notes.append("DIVERGENCE module=Core (Verify/SyncResult) trace=%d step=%d op=%s" % (d["t"], d["i"], d["op"]))
 
 
+def environment_conformance(rep, wd, seed, files=4, traces=40):
+    """SqliteWal.tla (the environment half of the specification) must accept traces recorded from REAL SQLite with no
+    litestream attached (cmd/envtrace).  Includes a negative control: one corrupted page id must be rejected."""
+    binary, _ = vlib.go_build("./cmd/envtrace", "envtrace")
+    acc, ev = 0, 0
+    for k in range(files):
+        out = os.path.join(wd, "env_trace.ndjson")
+        vlib.run([binary, "-seed", str(seed * 100 + k), "-n", str(traces), "-ps", str([4096, 512, 1024, 8192][k % 4]), "-out", out, "-work", wd], timeout=600)
+        n = sum(1 for _ in open(out))
+        r = vlib.run_tlc("SqliteWal", "SqliteWal.cfg", wd, workers=1, timeout=900)
+        vlib.tlc_expect_ok(r, "SqliteWal")
+        rep.add_tlc("SqliteWal(env #%d)" % k, r, "real SQLite trace of %d events" % n)
+        ok = r.ok and r.distinct >= n
+        ev += n
+        acc += 1 if ok else 0
+        if not ok:
+            rep.notes.append("DIVERGENCE module=SqliteWal (environment): real SQLite trace #%d rejected after %d of %d events" % (k, max(0, r.distinct - 1), n))
+        if k == 0:   # negative control
+            lines = open(out).readlines()
+            for j, ln in enumerate(lines):
+                e = json.loads(ln)
+                if e["ev"] == "txn" and j > 20:
+                    e["obs"]["wal"][-1]["ver"] += 1000
+                    lines[j] = json.dumps(e) + "\n"
+                    break
+            open(out, "w").writelines(lines)
+            r2 = vlib.run_tlc("SqliteWal", "SqliteWal.cfg", wd, workers=1, timeout=900)
+            rejected = (not r2.ok) or r2.distinct < n
+            rep.cov.setdefault("negative_controls", {})["corrupted_env_trace_rejected"] = bool(rejected)
+    rep.cov["environment_conformance"] = {"files": files, "accepted": acc, "events": ev}
+
+
 def classify(rep, prop, cases_by_id, events, verdicts, hazards, my_invariants, label):
     """Known finding <=> the trace shows the signature (hazard) of a listed finding and only invariants listed for it."""
     known = [f for f in vlib.known_findings(prop) if f.get("status") == "known"]
